@@ -85,6 +85,21 @@ def check_frame(case, rec):
         raise Violation("%s.decrypt(encrypt(p)) raised %s: %s   [payload %s, crc %04x, frame %s]" % (name, type(ex).__name__, ex, payload.hex(), crc, frame.hex()))
     if back != payload:
         raise Violation("%s.decrypt(encrypt(p)) = %s, p = %s" % (name, bytes(back).hex(), payload.hex()))
+    # the payload handed over in another buffer type (bytearray / memoryview): the same frame (or a refusal with TypeError), and the CALLER's
+    # buffer is the caller's - it must come back unchanged
+    for tname, mk in (("bytearray", bytearray), ("memoryview", lambda b: memoryview(bytearray(b)))):
+        buf = mk(payload)
+        try:
+            ct_alt = e.encrypt(buf)
+        except TypeError:
+            ct_alt = None
+        except Exception as ex:
+            raise Violation("%s.encrypt(%s payload) raised %s: %s" % (name, tname, type(ex).__name__, ex))
+        if bytes(buf) != payload:
+            raise Violation("%s.encrypt(%s payload) CHANGED the caller's buffer: %s -> %s" % (name, tname, payload.hex(), bytes(buf).hex()))
+        if ct_alt is not None and bytes(ct_alt) != bytes(ct):
+            raise Violation("%s.encrypt(%s payload) gives another frame than the equal bytes payload" % (name, tname))
+        rec.cls("payload-type=" + tname)
     # the SAME encryptor object used again: framing must not depend on earlier calls on that object
     p2 = payload[::-1] + b"\x07" if len(payload) < 253 else payload[:100]
     try:
